@@ -184,3 +184,5 @@ def run(ctx):
     r5_5(ctx)
     from .C04 import r4_2
     r4_2(ctx)  # an eligible combination that can_add_resources rejects starves a READY task for ever
+    from ..initflags import group_rule
+    group_rule(ctx, "R3.7", "pairing", "a resource keeps a stale assignment that no task will ever release: it stays WORKING for ever and a feasible project runs into max_time")
